@@ -63,6 +63,12 @@ pub struct Plan {
     pub seed: u64,
     pub pipe: usize,
     pub ops: Vec<Step>,
+    /// after every acknowledged mutating request take a process-kill image and check that the
+    /// acknowledged change is in it (with the blocking pool stalled for some requests)
+    #[serde(default)]
+    pub kill_check: bool,
+    #[serde(default)]
+    pub stall_seed: u64,
 }
 
 /// (raw query value, parsed) - None raw = parameter absent
@@ -257,6 +263,8 @@ pub fn generate(seed: u64, prop: &str, thorough: bool) -> Plan {
     Plan {
         prop: prop.to_string(),
         seed,
+        kill_check: prop == "C04",
+        stall_seed: rng.next_u64(),
         // request/response connections: at least 1 KiB each way (an early 4xx for a request whose
         // body hyper has not read yet is followed by a close; with a pipe smaller than the
         // response that close truncates it - an artefact of the pipe, real sockets buffer it)
@@ -296,12 +304,17 @@ pub struct Exec4 {
     cas_failures: std::sync::Arc<std::sync::Mutex<Vec<String>>>,
     /// when set, HTTP connections are served by this store instead of the model-tracked one (C20's import target)
     alt_store: Option<xs::store::Store>,
+    kill_check: bool,
+    stall_rng: Rng,
+    img_no: u32,
 }
 
 enum Outcome {
     Resp(Response),
     Dropped(String),
     Cut,
+    /// no response while the blocking pool is stalled (the handler is waiting for it)
+    Stalled,
 }
 
 thread_local! {
@@ -347,6 +360,9 @@ impl Exec4 {
             cas_watch,
             cas_failures,
             alt_store: None,
+            kill_check: plan.kill_check,
+            stall_rng: Rng::new(plan.stall_seed),
+            img_no: 0,
         })
     }
 
@@ -397,7 +413,38 @@ impl Exec4 {
     /// bytes) and read the complete response.
     fn request(&mut self, bytes: &[u8], frag: u64, cut: Option<u32>, fresh: bool, head_only: bool) -> R<Outcome> {
         self.cas_watch.store(true, std::sync::atomic::Ordering::SeqCst);
-        let r = self.request_inner(bytes, frag, cut, fresh, head_only);
+        let stall = self.kill_check && self.alt_store.is_none() && self.stall_rng.chance(40);
+        if stall {
+            // fault: the blocking pool is saturated - jobs spawned by this request wait
+            self.ex.w.stall_blocking();
+            self.ex.w.probe("fault:blocking-pool-stalled");
+        }
+        let mut r = self.request_inner(bytes, frag, cut, fresh, head_only);
+        if stall {
+            let answered = matches!(&r, Ok(Outcome::Resp(resp)) if resp.status < 300);
+            let held = self.ex.w.hold_blocking && self.ex.w.blocking_busy() > 0;
+            if answered && held && bytes.starts_with(b"POST ") || answered && held && bytes.starts_with(b"DELETE ") {
+                // the request was acknowledged while work for it is still queued: a process kill
+                // right now must not lose the acknowledged change
+                self.ex.w.probe("fault:acked-while-jobs-pending");
+                if let Ok(Outcome::Resp(resp)) = &r {
+                    if let Ok(f) = serde_json::from_slice::<Frame>(&resp.body) {
+                        if f.ttl != Some(TTL::Ephemeral) {
+                            if let Err(e) = self.kill_image_has(&f) {
+                                let _ = self.ex.w.release_blocking();
+                                self.cas_watch.store(false, std::sync::atomic::Ordering::SeqCst);
+                                return Err(e);
+                            }
+                        }
+                    }
+                }
+            }
+            self.ex.w.release_blocking()?;
+            if matches!(&r, Ok(Outcome::Stalled)) {
+                // the handler was waiting for the stalled pool: it finishes now
+                r = self.read_response(head_only);
+            }
+        }
         self.cas_watch.store(false, std::sync::atomic::Ordering::SeqCst);
         let fails: Vec<String> = std::mem::take(&mut *self.cas_failures.lock().unwrap());
         if let Some(h) = fails.first() {
@@ -407,6 +454,30 @@ impl Exec4 {
             );
         }
         r
+    }
+
+    /// Byte copy of the live directory = process-kill image; the acknowledged frame must be in it.
+    fn kill_image_has(&mut self, f: &Frame) -> R<()> {
+        self.img_no += 1;
+        let img = self.ex.w.dir.join(format!("kill{}", self.img_no));
+        e3::copy_dir_stable(&self.ex.path, &img).map_err(Stop::Harness)?;
+        let st = self.ex.w.open_store(&img)?;
+        let got = st.get(&f.id);
+        let in_stream = st.read_sync(None, None, None).any(|x| x.id == f.id);
+        self.ex.w.close_store(st, Some(img))?;
+        self.ex.w.probe("image:kill-after-ack");
+        if got.is_none() || !in_stream {
+            return violation(
+                "crash/acked-lost:http",
+                format!(
+                    "the request answered 2xx with {} but a process-kill image taken right after the response does not contain that frame (by id: {}, in the stream: {})",
+                    fmt_frame(f),
+                    got.is_some(),
+                    in_stream
+                ),
+            );
+        }
+        Ok(())
     }
 
     fn request_inner(&mut self, bytes: &[u8], frag: u64, cut: Option<u32>, fresh: bool, head_only: bool) -> R<Outcome> {
@@ -442,6 +513,11 @@ impl Exec4 {
                 match c.try_write(rt, &bytes[sent..end]) {
                     Ok(0) => {
                         self.ex.w.probe("http:backpressure");
+                        if self.ex.w.hold_blocking {
+                            // the handler waits for the stalled pool and has stopped reading: the
+                            // saturation ends here
+                            self.ex.w.release_blocking()?;
+                        }
                         self.settle()?;
                         let rt = self.ex.w.rt.as_ref().unwrap();
                         let c = self.main.as_mut().unwrap();
@@ -467,7 +543,10 @@ impl Exec4 {
             self.main = None;
             return Ok(Outcome::Cut);
         }
-        // read the response
+        self.read_response(head_only)
+    }
+
+    fn read_response(&mut self, head_only: bool) -> R<Outcome> {
         let mut rounds = 0;
         loop {
             self.settle()?;
@@ -490,6 +569,9 @@ impl Exec4 {
             if got == 0 {
                 rounds += 1;
                 if rounds > 3 {
+                    if self.ex.w.hold_blocking {
+                        return Ok(Outcome::Stalled);
+                    }
                     let partial = String::from_utf8_lossy(&c.inbuf).chars().take(80).collect::<String>();
                     self.main = None;
                     return Ok(Outcome::Dropped(format!("no response although the server is idle (received so far: {:?})", partial)));
@@ -513,6 +595,30 @@ impl Exec4 {
     fn check_store_vs_model(&mut self, what: &str) -> R<()> {
         let all: Vec<Frame> = self.ex.store().read_sync(None, None, None).collect();
         self.ex.model.check_read(&format!("{} (store after the request)", what), None, None, None, &all, None)
+    }
+
+    /// Whenever a frame with a hash is observable its content is retrievable: every frame in
+    /// the stream whose content this run wrote must still read back byte for byte.
+    fn check_cas_of_visible(&mut self, what: &str) -> R<()> {
+        let all: Vec<Frame> = self.ex.store().read_sync(None, None, None).collect();
+        for f in &all {
+            if let Some(h) = &f.hash {
+                if let Some((_, want)) = self.cas_known.iter().find(|(k, _)| k == h) {
+                    match self.ex.store().cas_read_sync(h) {
+                        Ok(b) if b == *want => {}
+                        Ok(_) => return violation("cas/content-mismatch", format!("{}: content of the visible frame {} changed", what, fmt_frame(f))),
+                        Err(e) => {
+                            return violation(
+                                "cas/missing-for-visible-frame",
+                                format!("{}: {} is in the stream but its content is no longer retrievable: {}", what, fmt_frame(f), e),
+                            )
+                        }
+                    }
+                    self.ex.w.probe("cas:visible-content-checked");
+                }
+            }
+        }
+        Ok(())
     }
 
     fn parse_frames(&self, what: &str, body: &[u8], sse: bool) -> R<Vec<Frame>> {
@@ -627,6 +733,7 @@ impl Exec4 {
                     None => Tri::Absent,
                 };
                 match out {
+                    Outcome::Stalled => {}
                     Outcome::Cut => {
                         // a request cut before it was complete changes nothing
                         let _ = before_log;
@@ -721,7 +828,7 @@ impl Exec4 {
                         }
                     }
                     Outcome::Dropped(why) => return self.dropped(&what, why),
-                    Outcome::Cut => {}
+                    Outcome::Cut | Outcome::Stalled => {}
                 }
             }
             HOp::Remove { id, malformed } => {
@@ -744,10 +851,11 @@ impl Exec4 {
                             self.ex.model.remove(&idv);
                             let got = self.ex.store().get(&idv);
                             self.ex.model.check_get(&format!("{} (lookup after DELETE)", what), &idv, got.as_ref())?;
+                            self.check_cas_of_visible(&format!("{} (after DELETE)", what))?;
                         }
                     }
                     Outcome::Dropped(why) => return self.dropped(&what, why),
-                    Outcome::Cut => {}
+                    Outcome::Cut | Outcome::Stalled => {}
                 }
             }
             HOp::Head { topic, ctx } => {
@@ -777,7 +885,7 @@ impl Exec4 {
                         }
                     }
                     Outcome::Dropped(why) => return self.dropped(&what, why),
-                    Outcome::Cut => {}
+                    Outcome::Cut | Outcome::Stalled => {}
                 }
             }
             HOp::Cat { ctx, last, limit, sse, bad, frag } => {
@@ -823,7 +931,7 @@ impl Exec4 {
                         }
                     }
                     Outcome::Dropped(why) => return self.dropped(&what, why),
-                    Outcome::Cut => {}
+                    Outcome::Cut | Outcome::Stalled => {}
                 }
             }
             HOp::CasPost { body, chunked, chunk, frag, cut } => {
@@ -852,7 +960,7 @@ impl Exec4 {
                         }
                     }
                     Outcome::Dropped(why) => return self.dropped(&what, why),
-                    Outcome::Cut => {}
+                    Outcome::Cut | Outcome::Stalled => {}
                 }
             }
             HOp::CasGet { which, idx } => {
@@ -885,7 +993,7 @@ impl Exec4 {
                         }
                     },
                     Outcome::Dropped(why) => return self.dropped(&what, why),
-                    Outcome::Cut => {}
+                    Outcome::Cut | Outcome::Stalled => {}
                 }
             }
             HOp::Import { kind, topic, ctx, ttl, ts_off, salt } => {
@@ -959,7 +1067,7 @@ impl Exec4 {
                         }
                     }
                     Outcome::Dropped(why) => return self.dropped(&what, why),
-                    Outcome::Cut => {}
+                    Outcome::Cut | Outcome::Stalled => {}
                 }
             }
             HOp::Version => {
@@ -973,7 +1081,7 @@ impl Exec4 {
                         }
                     }
                     Outcome::Dropped(why) => return self.dropped(&what, why),
-                    Outcome::Cut => {}
+                    Outcome::Cut | Outcome::Stalled => {}
                 }
             }
             HOp::Unknown { method, path } => {
@@ -988,7 +1096,7 @@ impl Exec4 {
                         self.ex.w.probe("http:unknown-route");
                     }
                     Outcome::Dropped(why) => return self.dropped(&what, why),
-                    Outcome::Cut => {}
+                    Outcome::Cut | Outcome::Stalled => {}
                 }
             }
             HOp::FollowOpen { kind, ctx, topic, sse } => {
@@ -1249,7 +1357,12 @@ impl Exec4 {
                 Step::H(h) => short(h),
             }));
             match st {
-                Step::S(o) => self.ex.apply(i, o)?,
+                Step::S(o) => {
+                    self.ex.apply(i, o)?;
+                    if matches!(o, Op::GcDrain | Op::Settle) {
+                        self.check_cas_of_visible(&format!("op{} (after the collector ran)", i))?;
+                    }
+                }
                 Step::H(h) => self.apply(i, h)?,
             }
             self.drain_follows(&format!("after op{}", i))?;
@@ -1386,7 +1499,7 @@ fn run20(x: &mut Exec4, plan: &Plan20) -> R<()> {
                 }
             }
             Outcome::Dropped(why) => return violation("http/dropped-connection", format!("POST /cas during import: {}", why)),
-            Outcome::Cut => {}
+            Outcome::Cut | Outcome::Stalled => {}
         }
     }
     let mut order: Vec<Frame> = frames.clone();
@@ -1433,7 +1546,7 @@ fn run20(x: &mut Exec4, plan: &Plan20) -> R<()> {
                 }
             }
             Outcome::Dropped(why) => return violation("http/dropped-connection", format!("POST /import: {}", why)),
-            Outcome::Cut => {}
+            Outcome::Cut | Outcome::Stalled => {}
         }
     }
     // ---- compare ----------------------------------------------------------------------
@@ -1546,7 +1659,7 @@ pub fn exec_value20(planv: &serde_json::Value, tag: &str) -> RunResult {
         Ok(p) => p,
         Err(e) => return empty(format!("bad plan: {}", e)),
     };
-    let p4 = Plan { prop: "C20".into(), seed: plan.seed, pipe: plan.pipe, ops: vec![] };
+    let p4 = Plan { prop: "C20".into(), seed: plan.seed, pipe: plan.pipe, ops: vec![], kill_check: false, stall_seed: 0 };
     let mut x = match Exec4::new(tag, &p4) {
         Ok(x) => x,
         Err(Stop::Harness(h)) => return empty(h),
